@@ -909,6 +909,15 @@ static int rtr_update_pfx_table(struct rtr_socket *rtr_socket, struct pfx_table 
 	rtr_prefix_pdu_2_pfx_record(rtr_socket, pdu, &pfxr, type);
 
 	int rtval;
+	const uint8_t max_prefix_len = (type == IPV4_PREFIX ? 32 : 128);
+
+	if (pfxr.min_len > max_prefix_len || pfxr.max_len > max_prefix_len) {
+		const char txt[] = "Prefix PDU with invalid length value received";
+
+		RTR_DBG("%s", txt);
+		rtr_send_error_pdu_from_host(rtr_socket, pdu, pdu_size, CORRUPT_DATA, txt, sizeof(txt));
+		return RTR_ERROR;
+	}
 
 	if (((struct pdu_ipv4 *)pdu)->flags == 1) {
 		rtval = pfx_table_add(pfx_table, &pfxr);
